@@ -423,6 +423,16 @@ func runC06(c *Ctx) {
 					What: "restart re-executed work that had finished: " + bad[0], Input: input, Impl: bad})
 			}
 		}
+		for _, l := range res.Trace {
+			if strings.HasPrefix(l, "fatal ") {
+				// Node.getFatalError's answer, compared by the driver with the model's fatalError
+				r.hist("getFatalError_compared_with_model")
+				f := strings.Fields(l)
+				if len(f) == 5 {
+					r.hist("fatal_" + strings.SplitN(f[3], ":", 2)[0] + "_" + f[4])
+				}
+			}
+		}
 		if ok, detail, done := replayInModel(c, res); done && !ok {
 			r.violate(Violation{Kind: "correspondence", Key: "C06:sched-replay-reject:" + classifyReject(detail),
 				What:   "the Lean Sched model rejects a real failure history: " + detail,
